@@ -11,7 +11,7 @@ from fractions import Fraction
 from harness.common import core, sx, z3
 from harness.smc_loop import SCHEDULES, eq_terms, omegas, pop_w
 
-TERMINATING = {"fixed1", "fixed2", "fixed4", "adaptive_half", "adaptive_cap2", "adaptive_cap3"}
+TERMINATING = {"fixed1", "fixed2", "fixed4", "fixed4_cap2", "adaptive_half", "adaptive_cap2", "adaptive_cap3"}
 
 
 def _t(x):
@@ -58,7 +58,8 @@ def check_run(ctx, env, props, label_suffix=""):
         cap = sched.get("max_n_steps")
         ctx.prove(betas[-1] == 1.0 or (cap is not None and K == cap), "c06/ends_at_one" + sfx, detail={"betas": betas})
         if sched.get("n_steps"):
-            ctx.prove(K == sched["n_steps"], "c06/fixed_iterations" + sfx, detail={"iterations": K})
+            want = sched["n_steps"] if cap is None else min(cap, sched["n_steps"])
+            ctx.prove(K == want, "c06/fixed_iterations" + sfx, detail={"iterations": K, "expected": want})
         if cap is not None:
             ctx.prove(K <= cap, "c06/cap_honoured" + sfx, detail={"iterations": K})
         if sched.get("min_step"):
